@@ -330,7 +330,8 @@ Definition hostpat_of (x : ext) (p : text) : option hostpat :=
 
 (* The matching rule for one entry line against the looked-up names h (host form) and a (address
    form) and the parsed address ip:
-   - a pattern field without any of * ? | / ! is a comma list of exact names;
+   - a pattern field without any of * ? | / ! is a comma list of exact names, compared with the
+     non-empty ones of h and a;
    - a field starting with '|' is a hashed name;
    - any other field is a pattern list with wildcards, negation and CIDR entries. *)
 Definition line_selects (x : ext) (p h a : text) (ip : option ipaddr) : bool :=
@@ -339,7 +340,7 @@ Definition line_selects (x : ext) (p h a : text) (ip : option ipaddr) : bool :=
     | Some hp => hostpat_match x hp h a ip
     | None => false
     end
-  else existsb (fun c => zlist_eqb c h || zlist_eqb c a) (tsplit 44 p).
+  else existsb (fun c => (nonempty h && zlist_eqb c h) || (nonempty a && zlist_eqb c a)) (tsplit 44 p).
 
 Definition exact_of (e : marker * text * Z) : list (text * entry) :=
   let '(m, p, k) := e in
@@ -412,27 +413,20 @@ Theorem kh_match_spec x lines st host addr port r :
                         line_selects x p (lookup_name host port) (lookup_name addr port) ip = true.
 Proof.
   intros Hl Hm. apply kh_load_inv in Hl as [He Hp]. simpl in He, Hp.
-  unfold kh_match in Hm. fold (lookup_ip x host addr) in Hm.
+  unfold kh_match, kh_match_gen in Hm. fold (lookup_ip x host addr) in Hm.
   destruct (lookup_ip x host addr) as [ip|]; [|discriminate]. exists ip. split; [reflexivity|].
   fold (lookup_name host port) in Hm. fold (lookup_name addr port) in Hm.
   set (h := lookup_name host port) in *. set (a := lookup_name addr port) in *.
+  cbn [negb orb] in Hm.
+  set (ms := map snd (filter (fun e => nonempty h && zlist_eqb (fst e) h) (kh_exact st)) ++
+             map snd (filter (fun e => nonempty a && zlist_eqb (fst e) a) (kh_exact st)) ++
+             map snd (filter (fun e => hostpat_match x (fst e) h a ip) (kh_pats st))) in *.
   injection Hm as <-. intros m k.
-  assert (Hk : In k (keys_of m
-      {| r_host := keys_with MNone (map snd (filter (fun e => zlist_eqb (fst e) h) (kh_exact st)) ++
-                                    map snd (filter (fun e => zlist_eqb (fst e) a) (kh_exact st)) ++
-                                    map snd (filter (fun e => hostpat_match x (fst e) h a ip) (kh_pats st)));
-         r_ca := keys_with MCA (map snd (filter (fun e => zlist_eqb (fst e) h) (kh_exact st)) ++
-                                map snd (filter (fun e => zlist_eqb (fst e) a) (kh_exact st)) ++
-                                map snd (filter (fun e => hostpat_match x (fst e) h a ip) (kh_pats st)));
-         r_revoked := keys_with MRevoked (map snd (filter (fun e => zlist_eqb (fst e) h) (kh_exact st)) ++
-                                map snd (filter (fun e => zlist_eqb (fst e) a) (kh_exact st)) ++
-                                map snd (filter (fun e => hostpat_match x (fst e) h a ip) (kh_pats st))) |}) <->
-      In (m, k) (map snd (filter (fun e => zlist_eqb (fst e) h) (kh_exact st)) ++
-                 map snd (filter (fun e => zlist_eqb (fst e) a) (kh_exact st)) ++
-                 map snd (filter (fun e => hostpat_match x (fst e) h a ip) (kh_pats st)))).
+  assert (Hk : In k (keys_of m {| r_host := keys_with MNone ms; r_ca := keys_with MCA ms;
+                                  r_revoked := keys_with MRevoked ms |}) <-> In (m, k) ms).
   { destruct m; cbn [keys_of r_host r_ca r_revoked]; apply In_keys_with. }
-  rewrite Hk. clear Hk. rewrite !in_app_iff.
-  rewrite (In_filter_fst (fun c => zlist_eqb c h)), (In_filter_fst (fun c => zlist_eqb c a)),
+  rewrite Hk. clear Hk. unfold ms. rewrite !in_app_iff.
+  rewrite (In_filter_fst (fun c => nonempty h && zlist_eqb c h)), (In_filter_fst (fun c => nonempty a && zlist_eqb c a)),
           (In_filter_fst (fun hp => hostpat_match x hp h a ip)).
   rewrite He, Hp. split.
   - intros [(c & Hin & Hc)|[(c & Hin & Hc)|(hp & Hin & Hc)]].
@@ -464,14 +458,33 @@ Proof.
       apply orb_true_iff in Hc as [Hc|Hc]; [left|right; left]; exists c; auto.
 Qed.
 
+(* An empty component of an exact-name list never selects the line, and an empty wildcard pattern
+   matches nothing: a line is selected through an exact list only by a non-empty component that
+   equals one of the looked-up names. *)
+Theorem exact_line_selected_by_nonempty x p h a ip :
+  is_pattern_line p = false -> line_selects x p h a ip = true ->
+  exists c, In c (tsplit 44 p) /\ c <> [] /\ (c = h \/ c = a).
+Proof.
+  intros Epl Hs. unfold line_selects in Hs. rewrite Epl in Hs.
+  apply existsb_exists in Hs as (c & Hin & Hc). exists c. split; [exact Hin|].
+  apply orb_true_iff in Hc as [Hc|Hc]; apply andb_true_iff in Hc as [Hn Hc];
+    apply zlist_eqb_spec in Hc; subst c; (split; [destruct h, a; simpl in Hn; congruence|]); auto.
+Qed.
+
+Theorem empty_wildcard_matches_nothing host addr ip : hp_match (HWild []) host addr ip = false.
+Proof. destruct host, addr; reflexivity. Qed.
+
 (* The [host]:port fallback, spelled out: the answer is the lookup of the name with the port,
    unless the port is absent/zero-valued or that lookup produced neither a trusted key nor a CA key,
-   in which case it is the lookup of the plain name - all three lists of it. *)
+   in which case trusted and CA keys are those of the plain-name lookup and the revoked keys are
+   those of both lookups. *)
 Theorem kh_lookup_fallback x st host addr port r :
   kh_lookup_st x st host addr port = Some r ->
   exists r1, kh_match x st host addr port = Some r1 /\
     (((port = 0 \/ r_host r1 <> [] \/ r_ca r1 <> []) /\ r = r1) \/
-     (port <> 0 /\ r_host r1 = [] /\ r_ca r1 = [] /\ kh_match x st host addr 0 = Some r)).
+     (port <> 0 /\ r_host r1 = [] /\ r_ca r1 = [] /\
+      exists r2, kh_match x st host addr 0 = Some r2 /\
+                 r = {| r_host := r_host r2; r_ca := r_ca r2; r_revoked := r_revoked r1 ++ r_revoked r2 |})).
 Proof.
   unfold kh_lookup_st. destruct (kh_match x st host addr port) as [r1|]; [|discriminate].
   intros H. exists r1. split; [reflexivity|].
@@ -479,9 +492,41 @@ Proof.
   - left. injection H as <-. auto.
   - destruct (r_host r1) eqn:Eh; simpl in H.
     + destruct (r_ca r1) eqn:Ec; simpl in H.
-      * right. auto.
+      * right. destruct (kh_match x st host addr 0) as [r2|]; [|discriminate].
+        injection H as <-. split; [exact Hp|]. split; [reflexivity|]. split; [reflexivity|]. exists r2. auto.
       * left. injection H as <-. split; [|reflexivity]. right. right. discriminate.
     + left. injection H as <-. split; [|reflexivity]. right. left. discriminate.
+Qed.
+
+(* Revocation survives the fallback: whatever the lookup with the port reports as revoked is
+   reported as revoked by the final answer. *)
+Theorem revoked_kept x st host addr port r r1 :
+  kh_lookup_st x st host addr port = Some r -> kh_match x st host addr port = Some r1 ->
+  forall k, In k (r_revoked r1) -> In k (r_revoked r).
+Proof.
+  intros H H1 k Hk. apply kh_lookup_fallback in H as (r1' & H1' & Hc).
+  rewrite H1 in H1'. injection H1' as <-.
+  destruct Hc as [[_ ->]|(_ & _ & _ & r2 & _ & ->)]; [exact Hk|].
+  cbn [r_revoked]. apply in_or_app. left. exact Hk.
+Qed.
+
+(* ... so a @revoked line that the matching rule selects for the looked-up [host]:port form is
+   always in the revoked list of the answer, fallback or not. *)
+Theorem revoked_line_reported x lines host addr port r ip p k :
+  kh_lookup_lines x lines host addr port = Some r ->
+  lookup_ip x host addr = Some ip ->
+  In (MRevoked, p, k) (kh_entries x lines) ->
+  line_selects x p (lookup_name host port) (lookup_name addr port) ip = true ->
+  In k (r_revoked r).
+Proof.
+  unfold kh_lookup_lines. intros H Hip Hent Hsel.
+  destruct (kh_load_lines x lines kh_empty) as [st|] eqn:El; [|discriminate].
+  destruct (kh_match x st host addr port) as [r1|] eqn:Em.
+  - apply (revoked_kept x st host addr port r r1 H Em).
+    destruct (kh_match_spec x lines st host addr port r1 El Em) as (ip' & Hip' & Hspec).
+    rewrite Hip in Hip'. injection Hip' as <-.
+    apply (Hspec MRevoked k). exists p. auto.
+  - unfold kh_lookup_st in H. rewrite Em in H. discriminate.
 Qed.
 
 (* ================================================================================================ *)
@@ -553,6 +598,12 @@ Proof.
   rewrite HR. apply rev_involutive.
 Qed.
 
+(* the law the key importer obeys since repair e01fa70: it fails with KeyImportError only *)
+Definition importer_total (x : ext) : Prop := forall d, keyof x d <> KRaise.
+
+Lemma not_key_is_bad x d : importer_total x -> (forall id, keyof x d <> KOk id) -> keyof x d = KBad.
+Proof. intros Ht Hn. specialize (Ht d). destruct (keyof x d) as [id| |]; [destruct (Hn id)|reflexivity|]; congruence. Qed.
+
 Theorem kh_unparsable_key_line_skipped x c0 pat d :
   c0 <> 35 -> c0 <> 64 -> nospace (c0 :: pat) -> trimmed d -> keyof x d = KBad ->
   kh_parse_line x ((c0 :: pat) ++ 32 :: d) = LSkip.
@@ -573,6 +624,19 @@ Proof.
   rewrite Hs, Hk. reflexivity.
 Qed.
 
+(* With an importer that only ever fails with KeyImportError (repair e01fa70): a line
+   patterns<blank>keyfield whose key field is not a key - bad base64, truncated blob, impossible
+   parameters, unknown algorithm, whatever the reason - has no effect on any lookup. *)
+Theorem kh_not_a_key_line_inert x c0 pat d l1 l2 host addr port :
+  importer_total x ->
+  c0 <> 35 -> c0 <> 64 -> nospace (c0 :: pat) -> trimmed d -> (forall id, keyof x d <> KOk id) ->
+  kh_lookup_lines x (l1 ++ ((c0 :: pat) ++ 32 :: d) :: l2) host addr port =
+  kh_lookup_lines x (l1 ++ l2) host addr port.
+Proof.
+  intros Ht H35 H64 Hn Htr Hk. apply kh_bad_line_skipped. left.
+  apply kh_unparsable_key_line_skipped; try assumption. apply not_key_is_bad; assumption.
+Qed.
+
 (* ================================================================================================ *)
 (* Witnesses: behaviours of the faithful model that contradict the documented rules                  *)
 
@@ -585,13 +649,13 @@ Definition wit_ext : ext := {|
   ip6 := fun _ => None
 |}.
 
-(* "h K" / "@revoked [h]:2222 K", lookup of h port 2222: the revoked line is selected for [h]:2222,
-   yet the answer has K trusted and not revoked. *)
-Theorem revoked_port_fallback_loses_revocation :
+(* Before repair 890407a ([kh_lookup_lines_old]): "h K" / "@revoked [h]:2222 K", lookup of h port
+   2222: the revoked line is selected for [h]:2222, yet the answer has K trusted and not revoked. *)
+Theorem revoked_port_fallback_lost_revocation_old :
   exists x lines host port p k r,
     In (MRevoked, p, k) (kh_entries x lines) /\
     line_selects x p (lookup_name host port) [] None = true /\
-    kh_lookup_lines x lines host [] port = Some r /\
+    kh_lookup_lines_old x lines host [] port = Some r /\
     In k (r_host r) /\ ~ In k (r_revoked r).
 Proof.
   exists wit_ext, [[104; 32; 75]; 64 :: txt_revoked ++ [32; 91; 104; 93; 58; 50; 50; 50; 50; 32; 75]],
@@ -600,13 +664,13 @@ Proof.
   split; [vm_compute; reflexivity|]. split; [left; reflexivity|]. intros [].
 Qed.
 
-(* "a, K" (empty component after the comma), lookup of host h without an address: no component of
-   the line matches h, yet K is returned as trusted. *)
-Theorem empty_component_matches_any_host :
+(* Before repair 1ebb7df: "a, K" (empty component after the comma), lookup of host h without an
+   address: no component of the line matches h, yet K was returned as trusted. *)
+Theorem empty_component_matched_any_host_old :
   exists x lines host p k r,
     In (MNone, p, k) (kh_entries x lines) /\
     (forall c, In c (tsplit 44 p) -> c <> [] -> wild_match c host = false) /\
-    kh_lookup_lines x lines host [] 0 = Some r /\ In k (r_host r).
+    kh_lookup_lines_old x lines host [] 0 = Some r /\ In k (r_host r).
 Proof.
   exists wit_ext, [[97; 44; 32; 75]], [104], [97; 44], 7.
   eexists. split; [vm_compute; auto|]. split.
@@ -614,8 +678,20 @@ Proof.
   - split; [vm_compute; reflexivity|left; reflexivity].
 Qed.
 
-(* A key field on which the importer raises (instead of KeyImportError) is not skipped: the whole
-   file becomes unusable. *)
+(* the same file and lookup with the repaired code: nothing is returned *)
+Example empty_component_now_inert :
+  kh_lookup_lines wit_ext [[97; 44; 32; 75]] [104] [] 0 = Some {| r_host := []; r_ca := []; r_revoked := [] |}.
+Proof. vm_compute. reflexivity. Qed.
+
+Example revoked_port_fallback_now_kept :
+  kh_lookup_lines wit_ext [[104; 32; 75]; 64 :: txt_revoked ++ [32; 91; 104; 93; 58; 50; 50; 50; 50; 32; 75]] [104] [] 2222
+  = Some {| r_host := [7]; r_ca := []; r_revoked := [7] |}.
+Proof. vm_compute. reflexivity. Qed.
+
+(* A key importer that raises something other than KeyImportError on a key field (the importer
+   before repair e01fa70 did, for well-framed blobs with impossible parameters; [wit_ext] does on
+   the field "R") is not skipped by the loader: the whole file becomes unusable.  This is why the
+   skipped-line theorems carry [importer_total] or an explicit KBad premise. *)
 Theorem raising_key_breaks_file :
   exists x l1 bad l2 host r,
     kh_lookup_lines x (l1 ++ l2) host [] 0 = Some r /\ r_host r <> [] /\
